@@ -356,6 +356,8 @@ NAME_POOL = [
     ('beta[1]', 'β_temps'),
     ('a=b', 'c'),
     ('lambda', 'mu ='),
+    ('b1 ', ' b2'),             # blanks at the ends of a name are part of the name
+    ('a\tb', 'c  '),
 ]
 VALUE_POOL = [0.1, 1.0 / 3.0, 5e-324, 2.2250738585072014e-308, 1e300, -1e300, -0.0,
               123456789.12345678, 1e-7, 2, -3]
